@@ -16,7 +16,7 @@ cp -r /repo/. "$target"/ && rm -rf "$target/.git" "$target"/refactor.*
 out="$dst/checks.txt"; : > "$out"
 ( cd "$target" && go build ./... && go vet ./... && go test -count=1 ./... >/dev/null 2>&1 ) && echo "suite_passes_with_change: yes" >> "$out" || echo "suite_passes_with_change: NO" >> "$out"
 for p in $(python3 -c "import json;print(' '.join(c['property_id'] for c in json.load(open('/verif/MANIFEST.json'))['checks']))"); do
-  r=$(/verif/bin/sigverif -repo "$target" check $p 2>&1); rc=$?
+  r=$(${SIGVERIF:-/verif/bin/sigverif} -repo "$target" check $p 2>&1); rc=$?
   echo "== $p exit=$rc" >> "$out"
   echo "$r" | grep -E "^VIOLATION|^KNOWN|GENERATOR" | cut -c1-300 >> "$out"
 done
